@@ -81,10 +81,23 @@ pub trait Fam {
     fn enforced(_res: &String) -> Option<Vec<Arc<Self::R>>> {
         None
     }
-    /// enforcement probe: Err(text) when a decision contradicts `thresholds` (the model's valid rules)
-    fn probe(_res: &String, _thresholds: &[u32]) -> Result<(), String> {
+    /// enforcement probe after every operation: Err(text) when a decision contradicts the model's valid
+    /// rules of the resource (`slots` = their pool slots, 0..PER_RES)
+    fn probe(_res: &String, _slots: &[usize]) -> Result<(), String> {
         Ok(())
     }
+    /// enforcement probe that changes long-lived state (breaker opens): run once, after the last operation
+    fn final_probe(_res: &String, _slots: &[usize]) -> Result<(), String> {
+        Ok(())
+    }
+    /// enforcement probe of a family without resources (system rules), after every operation
+    fn global_probe(_slots: &[usize]) -> Result<(), String> {
+        Ok(())
+    }
+}
+
+fn thresholds_of(slots: &[usize]) -> Vec<u32> {
+    slots.iter().map(|s| [1u32, 2, 3, 1][*s]).collect()
 }
 
 pub struct FlowFam;
@@ -129,7 +142,8 @@ impl Fam for FlowFam {
     fn enforced(res: &String) -> Option<Vec<Arc<flow::Rule>>> {
         Some(flow::get_traffic_controller_list_for(res).iter().map(|c| c.rule().clone()).collect())
     }
-    fn probe(res: &String, thresholds: &[u32]) -> Result<(), String> {
+    fn probe(res: &String, slots: &[usize]) -> Result<(), String> {
+        let thresholds = thresholds_of(slots);
         clock::advance_ms(11_000);
         match thresholds.iter().min() {
             None => match build(Req::new(res, 1000)) {
@@ -195,7 +209,8 @@ impl Fam for IsoFam {
     fn get_res(res: &String) -> Vec<Arc<isolation::Rule>> {
         isolation::get_rules_of_resource(res)
     }
-    fn probe(res: &String, thresholds: &[u32]) -> Result<(), String> {
+    fn probe(res: &String, slots: &[usize]) -> Result<(), String> {
+        let thresholds = thresholds_of(slots);
         let mut open = OpenEntries::new();
         let cap = thresholds.iter().min().cloned();
         let n = cap.unwrap_or(5);
@@ -271,6 +286,68 @@ impl Fam for HotFam {
     fn enforced(res: &String) -> Option<Vec<Arc<hotspot::Rule>>> {
         Some(hotspot::get_traffic_controller_list_for(res).iter().map(|c| c.rule().clone()).collect())
     }
+    /// decisions on fresh parameter values: QPS rules cap the first batch of a value at threshold + burst,
+    /// the concurrency rule (slot 2) caps the entries in flight for one value at 3
+    fn probe(res: &String, slots: &[usize]) -> Result<(), String> {
+        let hreq = |batch: u32, v: &str| {
+            let mut r = Req::new(res, batch);
+            r.args = Some(vec![v.to_string()]);
+            r
+        };
+        let short = |m: String| m.chars().take(160).collect::<String>();
+        clock::advance_ms(11_000);
+        let qps_cap: Option<u32> = slots.iter().filter_map(|s| match s { 0 | 3 => Some(1u32), 1 => Some(3u32), _ => None }).min();
+        let has_conc = slots.contains(&2);
+        match qps_cap {
+            None if !has_conc => match build(hreq(1000, &util::fresh_name("pv"))) {
+                Ok(e) => e.exit(),
+                Err(m) => return Err(format!("no rule should be active, yet batch 1000 was rejected: {}", short(m))),
+            },
+            None => {}
+            Some(c) => {
+                match build(hreq(c + 1, &util::fresh_name("pv"))) {
+                    Ok(e) => {
+                        e.exit();
+                        return Err(format!("first batch {} of a fresh value admitted although a QPS rule with threshold + burst = {} should be enforced", c + 1, c));
+                    }
+                    Err(m) => {
+                        if block_type_of(&m) != "HotSpotParamFlow" {
+                            return Err(format!("rejection is not a hotspot block: {}", short(m)));
+                        }
+                    }
+                }
+                match build(hreq(c, &util::fresh_name("pv"))) {
+                    Ok(e) => e.exit(),
+                    Err(m) => return Err(format!("first batch {} of a fresh value rejected although the smallest threshold + burst is {}: {}", c, c, short(m))),
+                }
+            }
+        }
+        // concurrency: three entries of one value fit (spaced so that every QPS bucket has refilled), the fourth does not
+        let v = util::fresh_name("pv");
+        let mut open = OpenEntries::new();
+        for i in 0..3 {
+            clock::advance_ms(2_000);
+            match build(hreq(1, &v)) {
+                Ok(e) => {
+                    open.push(e);
+                }
+                Err(m) => return Err(format!("entry {} of one value (2 s apart) rejected; rules in force (slots) {:?}: {}", i + 1, slots, short(m))),
+            }
+        }
+        clock::advance_ms(2_000);
+        match (has_conc, build(hreq(1, &v))) {
+            (true, Ok(e)) => {
+                open.push(e);
+                Err("fourth concurrent entry of one value admitted although the concurrency rule (threshold 3) should be enforced".into())
+            }
+            (false, Err(m)) => Err(format!("fourth concurrent entry of one value rejected although no concurrency rule is in force: {}", short(m))),
+            (_, Ok(e)) => {
+                open.push(e);
+                Ok(())
+            }
+            _ => Ok(()),
+        }
+    }
 }
 
 pub struct CbFam;
@@ -322,6 +399,41 @@ impl Fam for CbFam {
     fn enforced(res: &String) -> Option<Vec<Arc<cb::Rule>>> {
         Some(cb::get_breakers_of_resource(res).iter().map(|b| b.bound_rule().clone()).collect())
     }
+    /// failing requests: an error-count 1 or error-ratio 0.5 rule opens after the first failure, an
+    /// error-count 2 rule after the second, no rule never (min_request_amount is 1, window 1 s)
+    fn final_probe(res: &String, slots: &[usize]) -> Result<(), String> {
+        clock::advance_ms(11_000);
+        let need: Option<u32> = if slots.iter().any(|s| matches!(s, 0 | 2 | 3)) {
+            Some(1)
+        } else if slots.contains(&1) {
+            Some(2)
+        } else {
+            None
+        };
+        for k in 0..3u32 {
+            let expect_reject = need.map(|n| k >= n).unwrap_or(false);
+            match build(Req::new(res, 1)) {
+                Ok(e) => {
+                    if expect_reject {
+                        e.exit();
+                        return Err(format!("request admitted after {} failed requests although the rules in force (slots {:?}) open the breaker after {:?}", k, slots, need));
+                    }
+                    e.set_err(sentinel_core::Error::msg("biz"));
+                    e.exit();
+                }
+                Err(m) => {
+                    if !expect_reject {
+                        return Err(format!("request rejected after {} failed requests although the rules in force (slots {:?}) open the breaker only after {:?}: {}", k, slots, need, m.chars().take(160).collect::<String>()));
+                    }
+                    if block_type_of(&m) != "CircuitBreaking" {
+                        return Err(format!("rejection is not a circuit-breaker block: {}", m.chars().take(160).collect::<String>()));
+                    }
+                    return Ok(());
+                }
+            }
+        }
+        Ok(())
+    }
 }
 
 pub struct SysFam;
@@ -331,10 +443,10 @@ impl Fam for SysFam {
     const HAS_RES_OPS: bool = false;
     fn make(_res: &str, slot: usize) -> (system::Rule, bool) {
         match slot {
-            0 => (system::Rule { metric_type: system::MetricType::Concurrency, threshold: 1000.0, ..Default::default() }, true),
-            1 => (system::Rule { metric_type: system::MetricType::InboundQPS, threshold: 100000.0, ..Default::default() }, true),
-            2 => (system::Rule { metric_type: system::MetricType::Load, threshold: 1.0, strategy: system::AdaptiveStrategy::BBR, ..Default::default() }, true),
-            3 => (system::Rule { metric_type: system::MetricType::Concurrency, threshold: 1000.0, ..Default::default() }, true),
+            0 => (system::Rule { metric_type: system::MetricType::Concurrency, threshold: 2.0, ..Default::default() }, true),
+            1 => (system::Rule { metric_type: system::MetricType::InboundQPS, threshold: 3.0, ..Default::default() }, true),
+            2 => (system::Rule { metric_type: system::MetricType::Load, threshold: 1.0, ..Default::default() }, true),
+            3 => (system::Rule { metric_type: system::MetricType::Concurrency, threshold: 2.0, ..Default::default() }, true),
             4 => (system::Rule { metric_type: system::MetricType::Load, threshold: 1.5, ..Default::default() }, false),
             _ => (system::Rule { metric_type: system::MetricType::AvgRT, threshold: -1.0, ..Default::default() }, false),
         }
@@ -354,6 +466,64 @@ impl Fam for SysFam {
     }
     fn get() -> Vec<Arc<system::Rule>> {
         system::get_rules()
+    }
+    /// inbound decisions: the load rule (threshold 1, slot 2) rejects while the load reads 2; the concurrency
+    /// rule (2, slots 0/3) rejects with two inbound entries in flight; the QPS rule (3 per second, slot 1)
+    /// rejects once three inbound entries passed in the window
+    fn global_probe(slots: &[usize]) -> Result<(), String> {
+        use sentinel_core::system_metric;
+        let res = util::fresh_name("c10sysprobe");
+        fn inb(res: &str) -> Req<'_> {
+            let mut r = Req::new(res, 1);
+            r.inbound = true;
+            r
+        }
+        let short = |m: String| m.chars().take(160).collect::<String>();
+        let (has_conc, has_qps, has_load) = (slots.iter().any(|s| matches!(s, 0 | 3)), slots.contains(&1), slots.contains(&2));
+        clock::advance_ms(11_000);
+        system_metric::verif_set_cpu_usage(0.0);
+        system_metric::verif_set_load(2.0);
+        let r = build(inb(&res));
+        system_metric::verif_set_load(0.0);
+        match (has_load, r) {
+            (true, Ok(e)) => {
+                e.exit();
+                return Err("inbound entry admitted at load 2 although the load rule (threshold 1) should be enforced".into());
+            }
+            (false, Err(m)) => return Err(format!("inbound entry rejected at load 2 although no load rule is in force: {}", short(m))),
+            (_, Ok(e)) => e.exit(),
+            _ => {}
+        }
+        clock::advance_ms(11_000);
+        let mut open = OpenEntries::new();
+        let (mut in_flight, mut passed) = (0u32, 0u32);
+        for k in 0..5 {
+            let expect_reject = (has_conc && in_flight >= 2) || (has_qps && passed >= 3);
+            match build(inb(&res)) {
+                Ok(e) => {
+                    open.push(e);
+                    if expect_reject {
+                        return Err(format!("inbound entry {} admitted with {} in flight and {} passed this second; rules in force (slots) {:?}", k + 1, in_flight, passed, slots));
+                    }
+                    in_flight += 1;
+                    passed += 1;
+                }
+                Err(m) => {
+                    if !expect_reject {
+                        return Err(format!("inbound entry {} rejected with {} in flight and {} passed this second; rules in force (slots) {:?}: {}", k + 1, in_flight, passed, slots, short(m)));
+                    }
+                    if block_type_of(&m) != "SystemFlow" {
+                        return Err(format!("rejection is not a system block: {}", short(m)));
+                    }
+                    // free one slot so that the next request exercises the other rule too
+                    if let Some(i) = open.open_indices().first().cloned() {
+                        open.exit(i);
+                        in_flight -= 1;
+                    }
+                }
+            }
+        }
+        Ok(())
     }
 }
 
@@ -531,10 +701,23 @@ fn run_family<F: Fam>(case: &Case) -> Result<Outcome, (String, String)> {
                     }
                 }
                 // decisions
-                let thresholds: Vec<u32> = model[ri].iter().map(|i| (i % PER_RES) as u32).map(|s| [1u32, 2, 3, 1][s as usize]).collect();
-                if let Err(e) = F::probe(&names[ri], &thresholds) {
+                let slots: Vec<usize> = model[ri].iter().map(|i| i % PER_RES).collect();
+                if let Err(e) = F::probe(&names[ri], &slots) {
                     return Err(("enforcement-mismatch".into(), format!("after op {} {:?}: resource {}: {}", oi, op, ri, e)));
                 }
+            }
+        } else {
+            let slots: Vec<usize> = model[0].iter().map(|i| i % PER_RES).collect();
+            if let Err(e) = F::global_probe(&slots) {
+                return Err(("enforcement-mismatch".into(), format!("after op {} {:?}: {}", oi, op, e)));
+            }
+        }
+    }
+    if F::HAS_RES_OPS {
+        for ri in 0..case.nres {
+            let slots: Vec<usize> = model[ri].iter().map(|i| i % PER_RES).collect();
+            if let Err(e) = F::final_probe(&names[ri], &slots) {
+                return Err(("enforcement-mismatch".into(), format!("after the last operation: resource {}: {}", ri, e)));
             }
         }
     }
@@ -559,7 +742,7 @@ impl Property for C10 {
         true
     }
     fn rule(&self) -> String {
-        "bytes -> family (flow, isolation, hotspot, circuit breaker, system), 2-3 resources, 2-12 operations from {load-all, load-for-resource, append, clear-all, clear-resource, get} over a pool of per-resource valid rules (three thresholds), an equal-but-differently-identified twin, two invalid rules and one rule with an empty resource name; after every operation get_rules / get_rules_of_resource (and the rules bound to the enforcing controllers / breakers) are compared as sets under rule equality with a reference map, return values are asserted only where the statement fixes them, and for flow and isolation a decision probe checks the smallest threshold is enforced; non-trivial = >= 2 appends on a resource that already has a rule, or an invalid rule mixed into a replacement, or a per-resource replacement while another resource has rules; distinct = distinct decoded cases".into()
+        "bytes -> family (flow, isolation, hotspot, circuit breaker, system), 2-3 resources, 2-12 operations from {load-all, load-for-resource, append, clear-all, clear-resource, get} over a pool of per-resource valid rules (three thresholds), an equal-but-differently-identified twin, two invalid rules and one rule with an empty resource name; after every operation get_rules / get_rules_of_resource (and the rules bound to the enforcing controllers / breakers) are compared as sets under rule equality with a reference map, return values are asserted only where the statement fixes them, and decision probes check enforcement after every operation (flow: smallest threshold; isolation: smallest cap; hotspot: first batch of a fresh value against threshold + burst, and the concurrency cap of one value; system: load, inbound concurrency and inbound QPS rules) and, for circuit breakers, after the last operation (failures needed to open); non-trivial = >= 2 appends on a resource that already has a rule, or an invalid rule mixed into a replacement, or a per-resource replacement while another resource has rules; distinct = distinct decoded cases".into()
     }
     fn assumptions(&self) -> Vec<String> {
         vec![
